@@ -26,7 +26,7 @@ OBLIGATIONS = ["NiftyVerif.C08." + t for t in (
 RULE = ("RGSpace: 1-3 D, shapes 1..9 per axis, distances None / dyadic / non-dyadic, position and harmonic; LMSpace: all "
         "lmax<=6 (quick 5), mmax<=lmax; GLSpace/HPSpace small; DOFSpace; PowerSpace over every harmonic RGSpace/LMSpace with natural, "
         "useful linear / logarithmic and random custom bounds; identity: histories of 6-14 make / makemulti / pickle operations "
-        "over a pool of 6 descriptions; non-trivial = more than one axis or bin resp. a history with a repeated description; "
+        "over a pool of 10 descriptions; non-trivial = more than one axis or bin resp. a history with a repeated description; "
         "distinct by canonical case")
 TRUSTED_BASE = ["Lean 4.33 kernel; axioms propext/Classical.choice/Quot.sound only (audited every run)",
                 "Model/Domains.lean, Model/Intern.lean hand-written; tied by differential comparison: discrete results exact "
@@ -260,6 +260,8 @@ POOL = [
     [dict(kind="power", partner=dict(kind="rg", shape=[8], distances=None, harmonic=True), binbounds=None)],
     [dict(kind="hp", nside=1), dict(kind="gl", nlat=2, nlon=3)],
     [],
+    [dict(kind="power", partner=dict(kind="rg", shape=[8], distances=None, harmonic=True), binbounds=[0.5, 2.5])],
+    [dict(kind="dof", weights=[1.0, 2.0])],
 ]
 
 
